@@ -490,6 +490,7 @@ Theorem C07_unimplemented : forall b en name,
   validate_national the_table the_algos idx_banks de b = Ok true.
 Proof. intros b en name Hb He Hf. exact (national_unimplemented the_table the_algos idx_banks de b en name Hb He Hf). Qed.
 
+
 Print Assumptions C07_national.
 Print Assumptions C07_unlisted.
 
@@ -516,8 +517,59 @@ Lemma C07_codes_obl :
           registered = true.
 Proof. vm_cast_no_check (eq_refl true). Qed.
 
+(* ---- no German method raises a foreign exception on a ten-digit account number (used by C05) ---------------------- *)
+Lemma bb_total : forall code, In code proven_codes -> forall ds, bb_accept code ds <> None.
+Proof.
+  intros code H ds. unfold proven_codes in H.
+  repeat (destruct H as [<-|H]; [discriminate|]). destruct H.
+Qed.
+
+Lemma tx_de_colon name : tx "DE" ++ [58%N] ++ name = tx "DE:" ++ name.
+Proof. reflexivity. Qed.
+
+
+Lemma C07_accepts : forall name al, the_algos de name = Some al -> al_accepts al = [k_account].
+Proof.
+  intros name al Hal. unfold the_algos, the_find_algo, find_algo in Hal. fold de in Hal.
+  destruct (assoc (de ++ [58%N] ++ name) registered) as [[cls acc]|] eqn:Ea; [|discriminate].
+  apply assoc_in in Ea as (k' & Ek & Hin). apply Proofs.CleanFacts.text_eqb_eq in Ek. subst k'.
+  pose proof C07_de_obl as O. unfold de_row_ok in O. apply andb_true_iff in O as [_ Hreg].
+  rewrite forallb_forall in Hreg. specialize (Hreg _ Hin). cbn [fst snd] in Hreg.
+  unfold de in Hreg. rewrite tx_de_colon, startswith_app in Hreg. apply texts_eqb'_eq in Hreg. subst acc.
+  destruct (national_class the_env nd_runs (ic_alphabet the_iban_cfg) cls [k_account]) as [al'|] eqn:Ecls.
+  - inversion Hal; subst al'. clear -Ecls. unfold national_class in Ecls.
+    repeat match type of Ecls with context [text_eqb cls ?t] => destruct (text_eqb cls t) end;
+      try discriminate; inversion Ecls; reflexivity.
+  - unfold the_german, german_class in Hal. destruct (assoc cls german_table); [|discriminate]. inversion Hal. reflexivity.
+Qed.
+
+Theorem C07_total : forall name al account expected c,
+  the_algos de name = Some al ->
+  forallb is_ascii_digit account = true -> List.length account = 10%nat ->
+  al_validate al [account] expected <> Crash c.
+Proof.
+  intros name al account expected c Hal Hd Hl.
+  pose proof Hal as Hal0. unfold the_algos, the_find_algo, find_algo in Hal0. fold de in Hal0.
+  destruct (assoc (de ++ [58%N] ++ name) registered) as [[cls acc]|] eqn:Ea; [|discriminate]. clear Hal0.
+  apply assoc_in in Ea as (k' & Ek & Hin). apply Proofs.CleanFacts.text_eqb_eq in Ek. subst k'.
+  pose proof C07_codes_obl as O. rewrite forallb_forall in O. specialize (O _ Hin). cbn [fst] in O.
+  unfold de in O. rewrite tx_de_colon, startswith_app in O.
+  apply existsb_exists in O as (code & Hcode & Ekey). apply Proofs.CleanFacts.text_eqb_eq in Ekey.
+  apply app_inv_head in Ekey. subst name.
+  destruct Hcode as [<-|Hcode].
+  - (* 76 *)
+    destruct C07_m61_76_obl as (_ & O76). destruct (method_class "76") as [g|] eqn:Eg; [|discriminate].
+    destruct (method_algo "76" g Eg) as (cls' & acc' & _ & Hal'). fold de in Hal'. rewrite Hal' in Hal. inversion Hal; subst al.
+    cbn [al_validate german_algo]. rewrite C07_len_obl. intro Hcrash.
+    pose proof (m76_value nd_runs C07_nd_obl german_table g account O76 Hd Hl) as V. rewrite Hcrash in V. discriminate.
+  - destruct (C07_methods code Hcode) as (g & cls' & acc' & _ & _ & Hal' & Hspec). fold de in Hal'. rewrite Hal' in Hal.
+    inversion Hal; subst al. intro Hcrash. specialize (Hspec account expected Hd Hl). rewrite Hcrash in Hspec.
+    cbn [verdict] in Hspec. exact (bb_total code Hcode _ (eq_sym Hspec)).
+Qed.
+
 Print Assumptions C07_only_account.
 Print Assumptions C07_methods.
+Print Assumptions C07_total.
 Print Assumptions C07_m17.
 Print Assumptions C07_m21.
 Print Assumptions C07_m76_refuted.
